@@ -398,6 +398,19 @@ theorem noEqC_of_B (c : CreateTable) (h : noEqCB c = true) : NoEqC c := by
     optNoEq_of_B _ h6, optNoEq_of_B _ h7, optNoEq_of_B _ h8, optNoEq_of_B _ h9,
     fun p hp => ⟨noEqS_ok _ (h10 p hp).1, noEqS_ok _ (h10 p hp).2⟩⟩
 
+/-- **the property on texts with decidable hypotheses**: everything about the two tables is a Bool that evaluates (`FragCreate`, `leafCB`,
+the sufficient condition `hiveOK` of `C18T.lean` for the Hive fragment, `noEqCB`); `changeTypeT … = ok c'` is the exclusion of F-C18-1 -/
+theorem schema_preserved_text_B (rp : Bool) (c c' : CreateTable)
+    (hf : FragCreate .MYSQL c = true) (hl : leafCB .MYSQL c = true)
+    (h : changeTypeT Gen.mysqlToHive rp c = .ok c')
+    (hok : hiveOK c' = true) (hl' : leafCB .HIVE (hiveProj c') = true) (hq : noEqCB (hiveProj c') = true) :
+    ∃ (my hive : String) (p : CreateTable) (cols : List ColView),
+      PR.prStmt .MYSQL (.createTable c) = .ok my ∧ parseStatementsText .MYSQL my.toList = .ok [.createTable c] ∧
+      PR.prStmt .HIVE (.createTable c') = .ok hive ∧ parseStatementsText .HIVE hive.toList = .ok [.createTable p] ∧
+      mapCols Gen.mysqlToHive rp (view c).cols = some cols ∧
+      view p = ⟨(view c).schema, (view c).table, cols.map ColView.hive, (view c).parts.map ColView.hive, (view c).comment⟩ :=
+  schema_preserved_text rp c c' hf (leafC_of_B _ _ hl) h (fragHive_of_conv c' hok) (leafC_of_B _ _ hl') (noEqC_of_B _ hq)
+
 end C18
 
 /-! ## non-vacuity -/
@@ -464,6 +477,23 @@ def hiveEq : CreateTable :=
 def witness_hive_comment : Bool :=
   FragCreate .HIVE hiveEq && leafCB .HIVE hiveEq && !noEqCB hiveEq && !textRoundTrips .HIVE hiveEq
 #guard witness_hive_comment
+/-- the same through the conversion pipeline of C18 (finding candidate, root cause F-C06-2): a MySQL table whose column comment contains
+`==` is parsed, converted, printed for Hive and the Hive text parsed as Hive — the comment of the result is `'x=y'`, the schema view is
+NOT the mapped view (on the real code: `SQLParser.parse_create_table_statement(" CREATE TABLE `t`(\n  `a` INT COMMENT 'x==y'\n)", SQLType.HIVE)`
+has `columns[0].comment == "'x=y'"`) -/
+def witness_conv_eqeq : Bool :=
+  match parseMy "CREATE TABLE t (a int COMMENT 'x==y')" with
+  | some c => FragCreate .MYSQL c && leafCB .MYSQL c &&
+    (match changeTypeT Gen.mysqlToHive false c with
+     | .ok c' => hiveOK c' && leafCB .HIVE (hiveProj c') && !noEqCB (hiveProj c') &&
+        (match PR.prStmt .HIVE (.createTable c') with
+         | .ok s => (match parseStatementsText .HIVE s.toList with
+             | .ok [.createTable p] => (p.columns.map (·.comment)) == [some "'x=y'"] && (c'.columns.map (·.comment)) == [some "'x==y'"]
+             | _ => false)
+         | .error _ => false)
+     | .error _ => false)
+  | none => false
+#guard witness_conv_eqeq
 
 /-! instances of the theorems: hypotheses decided in the kernel on `C18.t1` (Hive) and `C18.t2` (MySQL) of `C18T.lean` -/
 example : ∃ str, PR.prStmt .MYSQL (.createTable t2) = .ok str ∧ parseStatementsText .MYSQL str.toList = .ok [.createTable t2] ∧
